@@ -15,6 +15,13 @@ def run(ck, rng):
     n = 500 if ck.tier == "quick" else 15000
     for _ in range(n):
         items = gen_fs_forest(rng, hostile=rng.random() < 0.8)
+        if rng.random() < 0.04:
+            # hundreds of valid roots and ONE invalid name near the end (an implementation may work in chunks of roots)
+            nr = rng.choice([255, 256, 257, 300, 520])
+            items = []
+            for r_ in range(nr):
+                items += [(1, b"r%03d" % r_), (2, b"a")]
+            items += [(1, b"last"), (2, rng.choice([b"..", b"x/y", b"."]))]
         # place one hostile name at a chosen position more often than the pool does
         if rng.random() < 0.5:
             j = rng.randrange(len(items))
